@@ -181,6 +181,12 @@ func (c *Conn) bdatWriter() *io.PipeWriter {
 }
 
 func (c *Conn) Close() error {
+	// From here on handleBdat does not start another delivery; the one that
+	// may be running is ended and waited for before the session is logged out.
+	c.locker.Lock()
+	c.closed = true
+	c.locker.Unlock()
+
 	c.abortBdat()
 
 	c.locker.Lock()
@@ -1058,6 +1064,11 @@ func (c *Conn) handleBdat(arg string) {
 		session, recipients := c.Session(), c.recipients
 		done := make(chan struct{})
 		c.locker.Lock()
+		if c.closed {
+			// Server.Close is tearing the connection down.
+			c.locker.Unlock()
+			return
+		}
 		c.bdatPipe, c.bdatDone = pipe, done
 		c.locker.Unlock()
 
